@@ -133,8 +133,12 @@ def run(shard, rec, tier, seed):
             h = []
             for _ in range(L):
                 if rng.random() < pset:
-                    kind = rng.choice(["zero", "account", "init", "init7", "ping", "simple"])
+                    kind = rng.choice(["zero", "account", "init", "init7", "ping", "simple", "init-ab", "ping-ab", "init-raw", "ping-raw"])
                     v = rng.choice([0, 1, 9, 10, 240, 1757, 2 ** 31, 10 ** 12, rng.randrange(0, 2000), -1, -6, -9, -1757, -rng.randrange(1, 30)])
+                    if h and h[-1][0] == "set" and rng.random() < 0.5:
+                        # the previous update's sibling: other class, same components / same number
+                        pk, v = h[-1][1], h[-1][2]
+                        kind = {"init-ab": "ping-ab", "ping-ab": "init-ab", "init-raw": "ping-raw", "ping-raw": "init-raw", "account": "simple", "simple": "account"}.get(pk, kind)
                     h.append(("set", kind, v))
                 else:
                     h.append(("next",))
@@ -207,6 +211,16 @@ def make_start(ss, kind, v):
         return ss.InitSequenceStart.from_init_values(v, 13)
     if kind == "ping":
         return ss.PingSequenceStart.from_ping_values(v + 17, 17)
+    # starts of different classes built from the same wire components / carrying the same value: an update
+    # must take effect whatever the new start "looks like" compared with the one in force
+    if kind == "init-ab":
+        return ss.InitSequenceStart.from_init_values(20 + abs(v) % 30, 5 + abs(v) % 3)
+    if kind == "ping-ab":
+        return ss.PingSequenceStart.from_ping_values(20 + abs(v) % 30, 5 + abs(v) % 3)
+    if kind == "init-raw":
+        return ss.InitSequenceStart(v, 20 + abs(v) % 30, 5 + abs(v) % 3)
+    if kind == "ping-raw":
+        return ss.PingSequenceStart(v + 1, 20 + abs(v) % 30, 5 + abs(v) % 3)
     return ss.SimpleSequenceStart(v)
 
 
